@@ -346,6 +346,9 @@ pub fn install_ring_lock_hook() {
     });
 }
 
+/// set when a daemon thread was found stuck (see `recv_msg`); `Report::violation` ends the run then
+pub static STUCK: AtomicBool = AtomicBool::new(false);
+
 static PANICS: Mutex<Vec<String>> = Mutex::new(Vec::new());
 static HOOKED: AtomicBool = AtomicBool::new(false);
 static SOCK_SEQ: AtomicU64 = AtomicU64::new(0);
@@ -379,6 +382,8 @@ where
     pub daemon: Option<VhostUserDaemon<TBackend<V, B>>>,
     pub be: TBackend<V, B>,
     pub peer: Option<UnixStream>,
+    /// a thread of this daemon did not answer: it must not be joined
+    pub stuck: std::cell::Cell<bool>,
     listener: Listener,
     path: String,
     pub reply_ack: bool,
@@ -407,7 +412,7 @@ where
         let daemon = VhostUserDaemon::new("vmc-daemon".to_string(), be.clone(), mem).expect("daemon");
         let path = format!("/tmp/vmc-{}-{}.sock", std::process::id(), SOCK_SEQ.fetch_add(1, Ordering::SeqCst));
         let listener = Listener::new(&path, true).expect("listener");
-        let mut h = DaemonH { daemon: Some(daemon), be, peer: None, listener, path, reply_ack: false, pending_fds: vec![] };
+        let mut h = DaemonH { daemon: Some(daemon), be, peer: None, listener, path, reply_ack: false, pending_fds: vec![], stuck: std::cell::Cell::new(false) };
         // probe listeners on every worker
         for (t, hdl) in h.daemon.as_ref().unwrap().get_epoll_handlers().iter().enumerate() {
             hdl.register_listener(h.be.probe_fd(t), EventSet::IN, h.be.probe_id() as u64).expect("probe listener");
@@ -477,8 +482,13 @@ where
                 if !pn.is_empty() {
                     return ReqOut::Dead(pn.join("; "));
                 }
-                if start.elapsed() > Duration::from_secs(10) {
-                    return ReqOut::Dead("no answer within 10 s and no panic recorded".into());
+                if start.elapsed() > Duration::from_secs(6) {
+                    // the daemon thread neither answers nor closes nor panics: it is stuck (e.g. a
+                    // self-deadlock). Nothing that needs this daemon can be decided any more, and
+                    // joining it would hang: the run is ended by the next recorded violation.
+                    STUCK.store(true, Ordering::SeqCst);
+                    self.stuck.set(true);
+                    return ReqOut::Dead("no answer within 6 s, connection still open, no panic recorded: the daemon thread is stuck".into());
                 }
             }
         }
@@ -604,8 +614,12 @@ where
                 if !PANICS.lock().unwrap().is_empty() {
                     return Err(format!("worker {t} panicked: {:?}", PANICS.lock().unwrap()));
                 }
-                if start.elapsed() > Duration::from_secs(10) {
-                    return Err(format!("worker {t} did not handle the probe within 10 s (exited or stuck)"));
+                if start.elapsed() > Duration::from_secs(6) {
+                    // exited or stuck: in the second case dropping the daemon (which joins its workers)
+                    // would hang, so it is leaked instead
+                    STUCK.store(true, Ordering::SeqCst);
+                    self.stuck.set(true);
+                    return Err(format!("worker {t} did not handle the probe within 6 s (exited or stuck)"));
                 }
             }
         }
@@ -639,6 +653,11 @@ where
         crate::sysshim::sched_release();
         self.peer = None;
         if let Some(mut d) = self.daemon.take() {
+            if self.stuck.get() {
+                // joining a stuck daemon thread would hang for ever: leak it
+                std::mem::forget(d);
+                return;
+            }
             let _ = d.wait();
             drop(d);
         }
